@@ -12,6 +12,7 @@ import argparse
 import importlib
 import json
 import os
+import subprocess
 import sys
 import traceback
 
@@ -20,6 +21,41 @@ sys.path.insert(0, HERE)
 sys.path.insert(0, os.path.join(HERE, "props"))
 
 import vlib  # noqa: E402
+
+
+def _descendants(pid: int) -> list:
+    kids = {}
+    for d in os.listdir("/proc"):
+        if d.isdigit():
+            try:
+                with open(f"/proc/{d}/stat") as f:
+                    parts = f.read().rsplit(")", 1)[1].split()
+                kids.setdefault(int(parts[1]), []).append(int(d))
+            except Exception:
+                pass
+    out, todo = [], [pid]
+    while todo:
+        for k in kids.get(todo.pop(), []):
+            out.append(k)
+            todo.append(k)
+    return out
+
+
+def _arm_watchdog(seconds: int) -> None:
+    """a check that hangs (a deadlocked worker pool, an engine that never answers) ends with exit 2 instead of running for ever"""
+    import signal
+
+    def on_alarm(signum, frame):  # noqa
+        print(f"check: no result after {seconds}s; giving up (exit 2)", file=sys.stderr, flush=True)
+        for k in _descendants(os.getpid()):
+            try:
+                os.kill(k, signal.SIGKILL)
+            except Exception:
+                pass
+        os._exit(2)
+
+    signal.signal(signal.SIGALRM, on_alarm)
+    signal.alarm(seconds)
 
 
 def main() -> int:
@@ -45,20 +81,41 @@ def main() -> int:
 
         for old in glob.glob(os.path.join(vlib.OUT_DIR, "replays", prop, "*.json")):
             os.remove(old)
+    _arm_watchdog(int(os.environ.get("VERIF_TIMEOUT", "2400" if a.tier == "quick" else "7200")))
     try:
         if a.replay:
             replay = json.load(open(a.replay))
             mod.replay(ctx, replay)
         else:
             mod.run(ctx)
-    except Exception:
+    except (subprocess.TimeoutExpired, TimeoutError, MemoryError, KeyboardInterrupt) as e:
         traceback.print_exc()
-        ctx.cov.setdefault("explanation", "infrastructure error")
+        ctx.cov.setdefault("explanation", f"infrastructure error: {type(e).__name__}")
         try:
             vlib.write_evidence(ctx, getattr(mod, "LEVEL", "proof"))
         except Exception:
             pass
         return 2
+    except Exception as e:
+        # the harness met something it cannot evaluate (an implementation result of an unexpected shape, a model that
+        # no longer builds, a driver that rejects its input): the correspondence no longer checks.  That is not an
+        # infrastructure error: the property is no longer shown to hold, and no failing input was found.
+        tb = traceback.format_exc()
+        print(tb, file=sys.stderr, flush=True)
+        if a.replay:
+            return 2
+        ctx.broken.append(f"the check could not be completed: {type(e).__name__}: {str(e)[:300]}")
+        if not ctx.violations:
+            vlib.report_violation(ctx, {"kind": "the correspondence check raised an exception before it could decide; no failing input found",
+                                        "broken": ctx.broken, "traceback": tb[-4000:]}, no_input=True)
+        ctx.cov.setdefault("explanation", "the check raised an exception (reported as a broken correspondence)")
+        try:
+            vlib.write_evidence(ctx, getattr(mod, "LEVEL", "proof"))
+        except Exception:
+            pass
+        n = len(ctx.violations)
+        print(f"{prop} tier={a.tier} seed={seed}: VIOLATIONS={n}; check raised {type(e).__name__}; {ctx.elapsed():.1f}s", flush=True)
+        return 1
     if not a.replay:
         vlib.write_evidence(ctx, getattr(mod, "LEVEL", "proof"))
     n = len(ctx.violations)
